@@ -6,6 +6,38 @@ import AnsiModel.Generated.Methods.ParseRgbString
 import AnsiModel.Generated.Methods.ScrubSettingsObjs
 import AnsiModel.Generated.Methods.ScrubFormatString
 
+/-
+  Property C14, part d — the *generated* (statement-by-statement translated, `harness/pyparse.py`) static
+  methods of `_AnsiSettingPoint` (ansi_string.py)
+      `_scrub_ansi_format_int`, `_parse_rgb_string`, `_scrub_ansi_format_string`,
+      and `_scrub_ansi_settings` for the one call the latter makes (a list of AnsiSettings)
+  compute exactly what the hand-written model says (`Scrub.parseRgbString`, `Scrub.scrubString` / `scrubDirective`
+  of `AnsiModel/Scrub.lean`), *with the error class*: the same value, or the same Python exception
+  (ValueError), for every input; nothing else is raised (`int(None, …)` TypeError, `None.ansi_settings`,
+  IndexError, digits or colour values outside the modelled domain of the primitives, running out of fuel).
+
+  NOT translated: `_scrub_ansi_settings` on its general argument (str / int / AnsiSetting / AnsiFormat member /
+  list / tuple, nested).  It calls itself through a `for` loop on a dynamically typed, possibly cyclic value and
+  detects cycles by `id()`; the model represents that by the constructor `SArg.selfRef`, not by identities, so
+  there is no faithful statement-by-statement image of `id(setting) in parsed_ids`.  What is translated of it is
+  the instance for `settings : List[AnsiSetting]` (`Gen.scrubSettingsObjsCode`): with that static type the
+  `isinstance` chain is decided while translating, `id(settings)` is kept as an opaque value that is stored and
+  never inspected, and the second half (the `while` that combines runs of ints) is translated in full.
+
+  The three `re.search(<literal>, s)` are `Re.matchStart Gen.regex_parse_rgb_string_k s` (harness/pyre.py,
+  C14c: equal to the model's `reRgb3/reRgb1/reColor`); `match.group(n)` is `Re.group caps n`.  What Python needs
+  from the groups — groups 3, 5, 7 present, non-empty, hexadecimal digits only (so that `int(group, base)` is
+  inside the modelled domain); groups 2, 4, 6 absent or non-empty (so that `16 if match.group(2) else 10` is
+  the model's `.isSome`) — is proved from the matcher by Hoare triples over `Re.m` (`C14d.L.Trip`, `trip_seq`,
+  `trip_cap_plus`, …, `trip_rgb3/rgb1/color`), for every string.
+
+  * `C14d.L`: the triples; `Good need caps`; `intBase_group`, `truthy_group`, `component_dict`;
+    `CopySpec`/`fold_copy`, `WalkSpec`/`walk_loop` (the two loops of `_scrub_ansi_settings`);
+    `DirSpec`/`fold_dirs` (the loop of `_scrub_ansi_format_string`), `normName_code`, `parseRgb_ne_nil`,
+    `table_ok` (every member: at most two settings, no empty text — decided over `Gen.formatTable`).
+  * `C14d`: the theorems over `Gen.*`.
+-/
+
 -- some simp arguments are there for other shapes the source may take
 set_option linter.unusedSimpArgs false
 
@@ -21,6 +53,8 @@ def Trip (P : Caps → Prop) (r : Re) (Q : Caps → Prop) : Prop :=
     ∃ rest caps', Q caps' ∧ k rest caps' = some a
 
 theorem bindOk {α β : Type} (a : α) (f : α → Except Exc β) : (Except.ok a : Except Exc α).bind f = f a := rfl
+
+theorem bindRet {α : Type} (x : Except Exc α) : x.bind (fun a => .ok a) = x := by cases x <;> rfl
 
 theorem or_some {α : Type} {x y : Option α} {a : α} (h : x.or y = some a) : x = some a ∨ y = some a := by
   cases x with
@@ -344,6 +378,9 @@ theorem component_dict (k : Option Str) :
     rw [dict_generic _ _ _ _ p (by decide) (by decide) (by decide)]
     rfl
 
+theorem ite_notb {α : Type} (b : Bool) (x y : α) : (if (!b) = true then x else y) = if b = true then y else x := by
+  cases b <;> rfl
+
 theorem clamp (r : Nat) : (min (255 : Int) (max 0 (r : Int))).toNat = min 255 r := by omega
 theorem clamp' (r : Nat) : (min (255 : Int) (r : Int)).toNat = min 255 r := by omega
 theorem natCast_not_neg (v : Nat) : ¬ ((v : Int) < 0) := by omega
@@ -440,6 +477,26 @@ theorem normName_code (f : Str) :
     · simp [h1, h2]
     · simp [h1, h2]
 
+theorem getIdx_mid {α : Type} (A : List α) (c : α) (B : List α) :
+    Py.getIdx (A ++ c :: B) (A.length : Int) = .ok c := by
+  unfold Py.getIdx
+  have h1 : ¬ ((A.length : Int) < 0) := by omega
+  simp [h1]
+
+/-- another way of writing `not s` -/
+theorem len_beq_zero {α : Type} (l : List α) : ((l.length : Int) == 0) = l.isEmpty := by
+  cases l with
+  | nil => rfl
+  | cons a t =>
+    have h : ¬ (((a :: t).length : Int) = 0) := by simp only [List.length_cons]; omega
+    simp only [List.isEmpty_cons, beq_eq_false_iff_ne, ne_eq, h, not_false_eq_true]
+
+theorem slice_from1 {α : Type} (l : List α) : Py.listSlice l (some (1 : Int)) none = l.drop 1 := by
+  unfold Py.listSlice Py.listIdx
+  cases l with
+  | nil => rfl
+  | cons a t => simp
+
 theorem lookup_member (name : Str) : Scrub.lookupFormat name = (PyParse.formatMember name).map (·.2) := rfl
 
 theorem colorSettings_ne_nil (comp : Nat) (b : Bool) (args : List Nat) : Scrub.colorSettings comp b args ≠ [] := by
@@ -452,14 +509,27 @@ theorem colorSettings_ne_nil (comp : Nat) (b : Bool) (args : List Nat) : Scrub.c
 /-- what `_parse_rgb_string` returns is never an empty list (`if not rgb_format_list` then means `None`) -/
 theorem parseRgb_ne_nil {s : Str} {ts : List Str} (h : Scrub.parseRgbString s = some (.ok ts)) : ts ≠ [] := by
   unfold Scrub.parseRgbString at h
-  repeat' split at h
-  all_goals first
-    | (simp only [Option.some.injEq, Except.ok.injEq] at h; rw [← h]; exact colorSettings_ne_nil _ _ _)
-    | (simp at h)
+  split at h
+  · simp only [] at h
+    split at h
+    · simp only [Option.some.injEq, Except.ok.injEq] at h; rw [← h]; exact colorSettings_ne_nil _ _ _
+    · simp at h
+  · split at h
+    · simp only [] at h
+      split at h
+      · simp only [Option.some.injEq, Except.ok.injEq] at h; rw [← h]; exact colorSettings_ne_nil _ _ _
+      · simp at h
+    · split at h
+      · simp only [] at h
+        split at h
+        · simp only [Option.some.injEq, Except.ok.injEq] at h; rw [← h]; exact colorSettings_ne_nil _ _ _
+        · simp at h
+      · simp at h
 
 /-- every member has at most two settings, none with an empty text -/
 def tableOk (l : List (Str × List Str)) : Bool := l.all (fun r => decide (r.2.length ≤ 2) && r.2.all (fun t => !t.isEmpty))
 
+set_option maxRecDepth 100000 in
 theorem table_ok : tableOk Gen.formatTable = true := by scrubl_table_decide
 
 theorem member_ok {name : Str} {r : Str × List Str} (h : PyParse.formatMember name = some r) :
@@ -502,7 +572,7 @@ theorem parse_rgb_is_code (s : Str) : Gen.parseRgbStringCode s = rgbOutcome (Scr
   cases h3 : Re.matchStart Scrub.reRgb3 s with
   | some caps =>
     have hg := trip_matchStart trip_rgb3 good_nil h3
-    simp only [truthy_group hg 2 (by decide), truthy_group hg 4 (by decide), truthy_group hg 6 (by decide),
+    simp only [ite_notb, truthy_group hg 2 (by decide), truthy_group hg 4 (by decide), truthy_group hg 6 (by decide),
       intBase_group hg 3 (by decide) (by decide), intBase_group hg 5 (by decide) (by decide),
       intBase_group hg 7 (by decide) (by decide), bindOk, component_dict]
     cases Scrub.numVal ((Re.group caps 3).getD []) (Re.group caps 2).isSome <;>
@@ -514,7 +584,7 @@ theorem parse_rgb_is_code (s : Str) : Gen.parseRgbStringCode s = rgbOutcome (Scr
     cases h1 : Re.matchStart Scrub.reRgb1 s with
     | some caps =>
       have hg := trip_matchStart trip_rgb1 good_nil h1
-      simp only [truthy_group hg 2 (by decide), intBase_group hg 3 (by decide) (by decide), bindOk, component_dict]
+      simp only [ite_notb, truthy_group hg 2 (by decide), intBase_group hg 3 (by decide) (by decide), bindOk, component_dict]
       cases Scrub.numVal ((Re.group caps 3).getD []) (Re.group caps 2).isSome <;>
         simp [rgbOutcome, PyParse.formatRgb1, bindOk, natCast_not_neg]
     | none =>
@@ -522,9 +592,170 @@ theorem parse_rgb_is_code (s : Str) : Gen.parseRgbStringCode s = rgbOutcome (Scr
       cases hc : Re.matchStart Scrub.reColor s with
       | some caps =>
         have hg := trip_matchStart trip_color good_nil hc
-        simp only [truthy_group hg 2 (by decide), intBase_group hg 3 (by decide) (by decide), bindOk, component_dict]
+        simp only [ite_notb, truthy_group hg 2 (by decide), intBase_group hg 3 (by decide) (by decide), bindOk, component_dict]
         cases Scrub.numVal ((Re.group caps 3).getD []) (Re.group caps 2).isSome <;>
           simp [rgbOutcome, PyParse.formatColor256, bindOk, natCast_not_neg]
       | none => rfl
 
+/-- `_scrub_ansi_settings(<list of AnsiSettings>, make_unique)` returns the settings: with `make_unique` they are
+    copied (`AnsiSetting(setting)`: ValueError on an empty text, which no AnsiSetting holds), no int is among
+    them, so the `while` only walks over the list (one round per setting: `fuel ≥ len`) -/
+theorem scrub_objs_is_code (fuel : Nat) (ts : List Str) (mu : Bool) (hf : ts.length ≤ fuel)
+    (hne : mu = true → ∀ t ∈ ts, t ≠ []) : Gen.scrubSettingsObjsCode fuel ts mu = .ok ts := by
+  unfold Gen.scrubSettingsObjsCode
+  simp only []
+  rw [fold_copy (mu := mu) ?cspec ts [] hne]
+  case cspec =>
+    intro out t ht
+    cases mu with
+    | false => simp
+    | true =>
+      have := ht rfl
+      cases t with
+      | nil => exact absurd rfl this
+      | cons c r => simp [PyParse.settingOfStr, PyParse.mkSetting, bindOk]
+  simp only [bindOk, List.nil_append]
+  rw [show ((0 : Int), ([] : List Code), ts) = (((0 : Nat) : Int), ([] : List Code), ts) from rfl,
+    walk_loop (out := ts) ?wspec ts.length 0 fuel (by omega) hf]
+  case wspec =>
+    intro i hi
+    constructor
+    · by_cases h : i < ts.length <;> simp [h]
+    · intro hlt
+      obtain ⟨A, c, B, hts, hA⟩ : ∃ A c B, ts = A ++ c :: B ∧ A.length = i :=
+        ⟨ts.take i, ts[i], ts.drop (i + 1), by simp, by simp; omega⟩
+      have hg : Py.getIdx ts (i : Int) = .ok c := by
+        rw [hts, ← hA]; exact getIdx_mid A c B
+      simp [hg, bindOk]
+  simp [bindOk]
+
+theorem translated_format_string : (Gen.scrubSettingsObjsCodeOk && Gen.scrubFormatStringCodeOk) = true := by decide
+
+/-- THE GENERATED `_scrub_ansi_format_string` IS THE MODEL'S `scrubString`, with the error class, for every string
+    and both values of `make_unique`, given fuel for the two settings a member has at most -/
+theorem format_string_is_code (fuel : Nat) (s : Str) (mu : Bool) (hf : 2 ≤ fuel) :
+    Gen.scrubFormatStringCode fuel s mu = liftErr (Scrub.scrubString s) := by
+  unfold Gen.scrubFormatStringCode Scrub.scrubString
+  try simp only [len_beq_zero]
+  cases s with
+  | nil => rfl
+  | cons c0 r =>
+    by_cases hb : c0 = '['
+    · subst hb
+      have hsl : Py.listSlice ('[' :: r) (some (1 : Int)) none = r := by
+        have := slice_from1 ('[' :: r)
+        simpa using this
+      cases r with
+      | nil => simp [hsl, Py.startsWith, PyParse.settingOfStr, PyParse.mkSetting, liftErr]; rfl
+      | cons c1 r1 => simp [hsl, Py.startsWith, PyParse.settingOfStr, PyParse.mkSetting, liftErr, bindOk]
+    · have hst : Py.startsWith (c0 :: r) "[".toList = false := by simp [Py.startsWith, hb]
+      have hsplit : PyParse.split (c0 :: r) Gen.ansiSep = .ok (Py.splitOnChar ';' (c0 :: r)) := by
+        have h : Gen.ansiSep = [';'] := by decide
+        rw [h]; rfl
+      simp only [List.isEmpty_cons, Bool.not_false, Bool.not_true, Bool.false_eq_true, ↓reduceIte, hst, hsplit, bindOk]
+      rw [fold_dirs ?dspec]
+      case dspec =>
+        intro acc fmt
+        simp only [normName_code]
+        unfold Scrub.scrubDirective
+        rw [lookup_member]
+        cases hm : PyParse.formatMember (Scrub.normName fmt) with
+        | some r =>
+          obtain ⟨hlen, hne⟩ := member_ok hm
+          simp only [Option.map_some, PyParse.getAttr, bindOk]
+          rw [scrub_objs_is_code fuel r.2 mu (by omega) (fun _ => hne)]
+          rfl
+        | none =>
+          simp only [Option.map_none, parse_rgb_is_code]
+          cases hp : Scrub.parseRgbString fmt with
+          | none =>
+            simp only [rgbOutcome, bindOk, Py.truthyOptList, format_int_is_code]
+            cases fmt with
+            | nil => simp [liftErr, Except.map]
+            | cons f0 fr =>
+              cases Py.int (f0 :: fr) with
+              | none => simp [liftErr, Except.map]
+              | some i =>
+                by_cases hi : i < 0
+                · simp [hi, liftErr, Except.map, bindOk]; rfl
+                · simp [hi, liftErr, Except.map, bindOk]
+          | some res =>
+            cases res with
+            | error e => rfl
+            | ok ts =>
+              have hts := parseRgb_ne_nil hp
+              cases ts with
+              | nil => exact absurd rfl hts
+              | cons t0 tr => simp [rgbOutcome, bindOk, Py.truthyOptList, Py.optGet, liftErr, Except.map]
+      rw [bindRet]
+      congr 1
+      split
+      · rename_i heq; cases heq
+      · rename_i heq; injection heq with h1 _; exact absurd h1 hb
+      · rfl
+
+/-! ## Only the model's exceptions -/
+
+theorem format_int_only_valueError (i : Int) (err : Exc) (h : Gen.scrubFormatIntCode i = .error err) :
+    err = .py .valueError := by
+  rw [format_int_is_code] at h
+  split at h <;> cases h; rfl
+
+theorem parse_rgb_only_py (s : Str) (err : Exc) (h : Gen.parseRgbStringCode s = .error err) : ∃ e, err = .py e := by
+  rw [parse_rgb_is_code] at h
+  cases hp : Scrub.parseRgbString s with
+  | none => rw [hp] at h; cases h
+  | some r => rw [hp] at h; cases r with
+    | ok _ => cases h
+    | error e => cases h; exact ⟨e, rfl⟩
+
+theorem format_string_only_py (fuel : Nat) (s : Str) (mu : Bool) (hf : 2 ≤ fuel) (err : Exc)
+    (h : Gen.scrubFormatStringCode fuel s mu = .error err) : ∃ e, err = .py e := by
+  rw [format_string_is_code fuel s mu hf] at h
+  cases hs : Scrub.scrubString s with
+  | ok _ => rw [hs] at h; cases h
+  | error e => rw [hs] at h; cases h; exact ⟨e, rfl⟩
+
+theorem scrub_objs_never_raises (fuel : Nat) (ts : List Str) (mu : Bool) (hf : ts.length ≤ fuel)
+    (hne : mu = true → ∀ t ∈ ts, t ≠ []) (err : Exc) : Gen.scrubSettingsObjsCode fuel ts mu ≠ .error err := by
+  rw [scrub_objs_is_code fuel ts mu hf hne]; intro e; cases e
+
+/-! ## Concrete values -/
+
+private def rgb (s : String) := Gen.parseRgbStringCode s.toList
+private def fs (s : String) (mu : Bool := false) := Gen.scrubFormatStringCode 2 s.toList mu
+
+example : rgb "rgb(1,2,3)" = .ok (some ["38;2;1;2;3".toList]) := by decide +kernel
+example : rgb "bg_rgb(0x10, 0xff, 300)" = .ok (some ["48;2;16;255;255".toList]) := by decide +kernel
+example : rgb "dul_rgb(123456)" = .ok (some ["21".toList, "58;2;1;226;64".toList]) := by decide +kernel
+example : rgb "fg_colour256(0x1f)" = .ok (some ["38;5;31".toList]) := by decide +kernel
+/-- hexadecimal digits without `0x`: ValueError; no pattern: None -/
+example : rgb "ul_rgb(ff,1,2)" = .error (.py .valueError) := by decide +kernel
+example : rgb "rgb(1,2" = .ok none := by decide +kernel
+example : rgb "red" = .ok none := by decide +kernel
+
+example : fs "" = .ok [] := by decide +kernel
+example : fs "[1;2" = .ok [.setting "1;2".toList] := by decide +kernel
+example : fs "[" = .error (.py .valueError) := by decide +kernel
+/- directives that go through `AnsiFormat[...]` (a scan of the 800 names of `Gen.formatTable`, each a string literal
+   the kernel has to decode) are left to the theorem: `fs s = liftErr (Scrub.scrubString s)`, and to the examples
+   of C14 on the model's side -/
+
+/-- the outcomes the theorems exclude are real ones of the primitives -/
+example : PyParse.intBase none 10 = .error (.py .typeError) := by decide
+example : PyParse.intBase (some "+1".toList) 10 = .error .outside := by decide
+example : PyParse.formatColor256 (-1) 0 = .error .outside := by decide
+example : PyParse.getAttr (none : Option (Str × List Str)) = .error .outside := by decide
+example : Gen.scrubSettingsObjsCode 1 ["1".toList, "31".toList] false = .error .outside := by decide +kernel
+example : Gen.scrubSettingsObjsCode 2 ["1".toList, []] true = .error (.py .valueError) := by decide +kernel
+
 end C14d
+
+#print axioms C14d.translated
+#print axioms C14d.translated_format_string
+#print axioms C14d.format_int_is_code
+#print axioms C14d.parse_rgb_is_code
+#print axioms C14d.scrub_objs_is_code
+#print axioms C14d.format_string_is_code
+#print axioms C14d.format_string_only_py
+#print axioms C14d.parse_rgb_only_py
